@@ -19,8 +19,8 @@ import (
 	"github.com/Fantom-foundation/lachesis-base/lachesis"
 	"github.com/Fantom-foundation/lachesis-base/utils/adapters"
 	"github.com/Fantom-foundation/lachesis-base/vecfc"
-	lref "verif/ref/lachesis"
 	"verif/ref/kv"
+	lref "verif/ref/lachesis"
 )
 
 // Events converts a reference DAG into real events; IDs are derived from content, so an ID
